@@ -15,7 +15,8 @@ import math
 from typing import Any, Dict, List, Optional, Tuple
 
 from .loader import Repo, Module, AnalysisError, import_bindings, norm
-from .indic_vals import (D, NA, NAN, Undecided, binop, unop, phi, mk, hid, broadcast, map1, fold, is_abs)
+from .indic_vals import (D, NA, NAN, Undecided, binop, unop, phi, mk, hid, broadcast, map1, fold, is_abs,
+                         Builtin, BoundMethod, NTClass, NT, PyRaise)
 from . import indic_np as NP
 
 FALL, RET, BRK, CONT = 0, 1, 2, 3
@@ -43,19 +44,7 @@ class Ext:
         return f"Ext({self.dotted})"
 
 
-class NTClass:
-    def __init__(self, name, fields):
-        self.name, self.fields = name, list(fields)
 
-
-class NT:
-    def __init__(self, cls: NTClass, vals):
-        self.cls, self.vals = cls, list(vals)
-
-
-class Builtin:
-    def __init__(self, fn, name=""):
-        self.fn, self.name = fn, name
 
 
 class Frame:
@@ -70,13 +59,9 @@ class _Ret(Exception):
         self.v = v
 
 
-class PyRaise(Exception):
-    def __init__(self, name):
-        self.name = name
-
 
 BINOPS = {ast.Add: "add", ast.Sub: "sub", ast.Mult: "mul", ast.Div: "div", ast.FloorDiv: "floordiv", ast.Mod: "mod", ast.Pow: "pow",
-          ast.BitAnd: "bitand", ast.BitOr: "bitor", ast.BitXor: "bitxor"}
+          ast.BitAnd: "bitand", ast.BitOr: "bitor", ast.BitXor: "bitxor", ast.MatMult: "matmul"}
 CMPOPS = {ast.Lt: "lt", ast.LtE: "le", ast.Gt: "gt", ast.GtE: "ge", ast.Eq: "eq", ast.NotEq: "ne"}
 
 
@@ -89,6 +74,8 @@ class Indic:
         self.depth = 0
         self._gcache: Dict[Tuple[str, str], Any] = {}
         self.notes: List[str] = []
+        self.loop_pending: List[list] = []
+        self.fn_pending: List[list] = []
 
     # ------------------------------------------------------------------ names
     def lookup(self, fr: Frame, name: str):
@@ -200,85 +187,98 @@ class Indic:
         try:
             if isinstance(node, ast.Lambda):
                 return self.eval(node.body, fr)
+            self.fn_pending.append([])
+            saved_loops = self.loop_pending
+            self.loop_pending = []
             try:
-                ex = self.block(node.body, fr)
-            except _Ret as r:
-                return r.v
-            return None
+                ex = self.block(node.body, fr, ())
+                result = ex[1] if ex[0] == RET else None
+                for cond, val, flip in reversed(self.fn_pending[-1]):
+                    result = self.join_val(cond, val, result) if not flip else self.join_val(cond, result, val)
+                return result
+            finally:
+                self.fn_pending.pop()
+                self.loop_pending = saved_loops
         finally:
             self.depth -= 1
 
     # ------------------------------------------------------------------ statements
-    def block(self, stmts, fr) -> int:
+    # block() returns (kind, value): FALL = completed normally; CONT / BRK / RET = control left the block.
+    # `cont` is the flat list of statements that follow this block up to the end of the enclosing loop body
+    # (or function body).  When a branch on an abstract condition leaves the block on one side only, the other
+    # side is run to that boundary too (rest + cont), so both sides can be joined at the boundary.
+    def block(self, stmts, fr, cont=()):
         for idx, s in enumerate(stmts):
+            rest = stmts[idx + 1:]
             if isinstance(s, ast.If):
                 t = self.eval(s.test, fr)
                 if isinstance(t, NA):
                     raise Undecided("truth value of an array")
                 if isinstance(t, D):
-                    return self.abstract_if(t, s, stmts[idx + 1:], fr)
-                ex = self.block(s.body if self.truth(t) else s.orelse, fr)
+                    ex = self.abstract_if(t, s, list(rest), list(cont), fr)
+                    if ex[0] == FALL:
+                        continue
+                    return ex
+                ex = self.block(s.body if self.truth(t) else s.orelse, fr, list(rest) + list(cont))
             else:
-                ex = self.stmt(s, fr)
-            if ex != FALL:
+                ex = self.stmt(s, fr, list(rest) + list(cont))
+            if ex[0] != FALL:
                 return ex
-        return FALL
+        return (FALL, None)
 
-    def abstract_if(self, cond: D, s: ast.If, rest, fr) -> int:
-        """Both sides of a branch on an abstract condition are executed on the same heap objects; the
+    def abstract_if(self, cond: D, s: ast.If, rest, cont, fr):
+        """Both sides of a branch on an abstract condition are executed on the same heap objects and the
         states are joined element-wise (phi on the condition), so implicit flows are tracked."""
         snap = self.snapshot(fr)
-        retA = retB = None
-        try:
-            exA = self.block(s.body, fr)
-        except _Ret as r:
-            exA, retA = RET, r.v
-        if exA == FALL and rest and self._exits(s.orelse):
-            pass
+        after = rest + cont
+        exA = self.block(s.body, fr, after)
         stA = self.snapshot(fr)
         self.restore(fr, snap)
-        try:
-            exB = self.block(s.orelse, fr)
-        except _Ret as r:
-            exB, retB = RET, r.v
-        if exA == exB:
-            if exA == RET:
-                self.join(fr, cond, stA)
-                raise _Ret(self.join_val(cond, retA, retB))
+        exB = self.block(s.orelse, fr, after)
+        if exA[0] == FALL and exB[0] == FALL:
             self.join(fr, cond, stA)
-            if exA != FALL:
-                return exA
-            return self.block(rest, fr)
-        # one side leaves the block (continue / break / return), the other falls through to `rest`
-        if exA == FALL:
-            # B exited: run rest on A's state, then join with B's exit state
+            return (FALL, None)
+        # at least one side left the block: run the falling side to the boundary as well
+        if exB[0] == FALL:
+            exB = self.block(after, fr, ())
+            if exB[0] == FALL:
+                exB = (CONT, None)
+        if exA[0] == FALL:
             stB = self.snapshot(fr)
             self.restore(fr, stA)
-            try:
-                exA2 = self.block(rest, fr)
-            except _Ret as r:
-                exA2, retA = RET, r.v
-            return self._join_exits(fr, cond, exA2, retA, stB, exB, retB, a_is_current=True)
-        else:
-            try:
-                exB2 = self.block(rest, fr)
-            except _Ret as r:
-                exB2, retB = RET, r.v
-            return self._join_exits(fr, cond, exB2, retB, stA, exA, retA, a_is_current=False)
-
-    def _join_exits(self, fr, cond, ex_cur, ret_cur, st_other, ex_other, ret_other, a_is_current):
-        # CONT and FALL at the end of a loop body are the same continuation; handled by the loop
-        norm_ = lambda e: CONT if e == FALL else e
-        if ex_cur == RET and ex_other == RET:
-            self.join(fr, cond, st_other, flip=a_is_current)
-            raise _Ret(self.join_val(cond, ret_cur, ret_other) if not a_is_current else self.join_val(cond, ret_cur, ret_other))
-        if norm_(ex_cur) == norm_(ex_other) and ex_cur != RET:
-            self.join(fr, cond, st_other, flip=a_is_current)
-            return CONT if (ex_cur == CONT or ex_other == CONT) else ex_cur
-        raise Undecided("data-dependent break/return")
-
-    def _exits(self, stmts):
-        return False
+            exA = self.block(after, fr, ())
+            if exA[0] == FALL:
+                exA = (CONT, None)
+            stA = self.snapshot(fr)
+            self.restore(fr, stB)
+        # frame holds side B (cond false); stA is side A (cond true)
+        kA, kB = exA[0], exB[0]
+        if kA == kB:
+            self.join(fr, cond, stA)
+            if kA == RET:
+                return (RET, self.join_val(cond, exA[1], exB[1]))
+            return (kA, None)
+        # different exits: defer the early exit (break / return) and continue on the other side
+        if kA == RET or kB == RET:
+            if not self.fn_pending:
+                raise Undecided("data-dependent return outside a function")
+            if kA == RET:
+                self.fn_pending[-1].append((cond, exA[1], False))
+                return exB                       # frame already holds B
+            self.fn_pending[-1].append((cond, exB[1], True))
+            self.restore(fr, stA)
+            return exA
+        if kA == BRK or kB == BRK:
+            if not self.loop_pending:
+                raise Undecided("data-dependent break outside a loop")
+            if kA == BRK:
+                self.loop_pending[-1].append((cond, stA, False))
+                return exB
+            stB = self.snapshot(fr)
+            self.loop_pending[-1].append((cond, stB, True))
+            self.restore(fr, stA)
+            return exA
+        raise Undecided("unsupported combination of data-dependent exits")
 
     def snapshot(self, fr: Frame):
         out = {}
@@ -388,7 +388,7 @@ class Indic:
             return True
         return bool(v)
 
-    def stmt(self, s, fr) -> int:
+    def stmt(self, s, fr, cont=()):
         self.steps += 1
         if self.steps > self.max_steps:
             raise Undecided("step budget exceeded")
@@ -397,92 +397,122 @@ class Indic:
             v = self.eval(s.value, fr)
             for tg in s.targets:
                 self.assign(tg, v, fr)
-            return FALL
+            return (FALL, None)
         if t is ast.AugAssign:
             cur = self.eval(_load(s.target), fr)
             v = self.binary(BINOPS[type(s.op)], cur, self.eval(s.value, fr))
             self.assign(s.target, v, fr)
-            return FALL
+            return (FALL, None)
         if t is ast.AnnAssign:
             if s.value is not None:
                 self.assign(s.target, self.eval(s.value, fr), fr)
-            return FALL
+            return (FALL, None)
         if t is ast.Expr:
             if not isinstance(s.value, ast.Constant):
                 self.eval(s.value, fr)
-            return FALL
+            return (FALL, None)
         if t is ast.Return:
-            raise _Ret(self.eval(s.value, fr) if s.value is not None else None)
+            return (RET, self.eval(s.value, fr) if s.value is not None else None)
         if t is ast.For:
             return self.for_(s, fr)
         if t is ast.While:
             return self.while_(s, fr)
         if t is ast.If:
-            return self.block([s], fr)
+            return self.block([s], fr, cont)
         if t is ast.Pass or t is ast.Global or t is ast.Nonlocal:
-            return FALL
+            return (FALL, None)
         if t is ast.Break:
-            return BRK
+            return (BRK, None)
         if t is ast.Continue:
-            return CONT
+            return (CONT, None)
         if t is ast.Raise:
             raise PyRaise(norm(s.exc)[:60] if s.exc is not None else "raise")
         if t is ast.Import or t is ast.ImportFrom:
             fr.imports.update(import_bindings(s, fr.mod.name, fr.mod.is_pkg))
-            return FALL
+            return (FALL, None)
         if t is ast.FunctionDef:
             fr.locals[s.name] = Fn(s, fr.mod, fr.locals)
-            return FALL
+            return (FALL, None)
         if t is ast.With:
             for it in s.items:
                 try:
                     self.eval(it.context_expr, fr)
                 except Undecided:
                     pass
-            return self.block(s.body, fr)
+            return self.block(s.body, fr, cont)
         if t is ast.Assert:
-            return FALL
+            return (FALL, None)
         if t is ast.Try:
             try:
-                return self.block(s.body, fr)
+                return self.block(s.body, fr, cont)
             except PyRaise:
                 for h in s.handlers:
-                    return self.block(h.body, fr)
+                    return self.block(h.body, fr, cont)
                 raise
         if t is ast.Delete:
-            return FALL
+            return (FALL, None)
         raise Undecided(f"statement {t.__name__}")
 
-    def for_(self, s, fr) -> int:
+    def _finish_loop(self, fr):
+        pend = self.loop_pending.pop()
+        for cond, st, flip in reversed(pend):
+            self.join(fr, cond, st, flip=flip)
+
+    def for_(self, s, fr):
         it = self.eval(s.iter, fr)
         items = self.iterate(it)
-        for x in items:
-            self.assign(s.target, x, fr)
-            ex = self.block(s.body, fr)
-            if ex == BRK:
-                return FALL
-            if ex == RET:
-                return RET
+        self.loop_pending.append([])
+        ok = False
+        try:
+            for x in items:
+                self.assign(s.target, x, fr)
+                ex = self.block(s.body, fr, ())
+                if ex[0] == BRK:
+                    break
+                if ex[0] == RET:
+                    if self.loop_pending[-1]:
+                        raise Undecided("return after a data-dependent break")
+                    ok = True
+                    return ex
+            ok = True
+        finally:
+            if ok:
+                self._finish_loop(fr)
+            else:
+                self.loop_pending.pop()
         if s.orelse:
-            return self.block(s.orelse, fr)
-        return FALL
+            return self.block(s.orelse, fr, ())
+        return (FALL, None)
 
-    def while_(self, s, fr) -> int:
+    def while_(self, s, fr):
         n = 0
-        while True:
-            c = self.eval(s.test, fr)
-            if isinstance(c, D):
-                raise Undecided("data-dependent while condition")
-            if not self.truth(c):
-                return FALL
-            n += 1
-            if n > 100000:
-                raise Undecided("while loop too long")
-            ex = self.block(s.body, fr)
-            if ex == BRK:
-                return FALL
-            if ex == RET:
-                return RET
+        self.loop_pending.append([])
+        ok = False
+        try:
+            while True:
+                c = self.eval(s.test, fr)
+                if isinstance(c, D):
+                    raise Undecided("data-dependent while condition")
+                if not self.truth(c):
+                    break
+                n += 1
+                if n > 100000:
+                    raise Undecided("while loop too long")
+                ex = self.block(s.body, fr, ())
+                if ex[0] == BRK:
+                    break
+                if ex[0] == RET:
+                    if self.loop_pending[-1]:
+                        raise Undecided("return after a data-dependent break")
+                    ok = True
+                    return ex
+            ok = True
+        finally:
+            if ok:
+                self._finish_loop(fr)
+            else:
+                self.loop_pending.pop()
+        return (FALL, None)
 
     def iterate(self, it):
         if isinstance(it, (list, tuple)):
@@ -653,6 +683,8 @@ class Indic:
         return v
 
     def binary(self, op, a, b):
+        if op == "matmul":
+            return NP.np_matmul(self, [a, b], {})
         if isinstance(a, NA) or isinstance(b, NA):
             if isinstance(a, (list, tuple)):
                 a = NP.to_na(a)
@@ -743,10 +775,6 @@ class Indic:
             return NP.dict_attr(self, v, attr)
         raise Undecided(f"attribute {attr} of {type(v).__name__}")
 
-
-class BoundMethod:
-    def __init__(self, fn):
-        self.fn = fn
 
 
 _MISSING = object()
